@@ -272,6 +272,9 @@ namespace ratio
                 }
                 cs.emplace_back(new conjunction(scp, cost, std::move(stmnts)));
             }
+#ifdef ORATIO_VERIF
+            scp.get_core().verif_note(2, this, nullptr, ctx, nullptr, "", false, std::vector<const void *>(cs.cbegin(), cs.cend()));
+#endif
             scp.get_core().new_disjunction(ctx, cs);
         }
 
@@ -365,6 +368,9 @@ namespace ratio
                 q.pop();
             }
 
+#ifdef ORATIO_VERIF
+            scp.get_core().verif_note(3, a, p, ctx, nullptr, formula_name.id, is_fact);
+#endif
             scp.get_core().new_atom(*a, is_fact);
             ctx->exprs.emplace(formula_name.id, expr(a));
         }
